@@ -40,7 +40,39 @@ var receiverLocalLib = map[string]bool{
 // effects allowed only in package cmd (the CLI front end)
 var cliOnlyLib = map[string]bool{"fmt.Fprintf": true, "os.Exit": true, "regexp.MustCompile": false}
 
+// purePackageFunc: package-level functions of the text/number packages take and return values (strings, numbers,
+// runes) and touch no memory the caller can see; the exceptions write into a slice argument.
+func purePackageFunc(f *ssa.Function) bool {
+	if f.Signature.Recv() != nil || f.Pkg == nil {
+		return false
+	}
+	switch f.Pkg.Pkg.Path() {
+	case "strings", "strconv", "unicode", "unicode/utf8", "math", "math/bits", "errors", "cmp":
+	default:
+		return false
+	}
+	if strings.HasPrefix(f.Name(), "Append") || strings.HasPrefix(f.Name(), "Encode") || f.Name() == "NewReplacer" || f.Name() == "NewReader" {
+		return false
+	}
+	return true
+}
+
+// historyLib: library state that makes a result depend on more than the arguments.
+func historyLib(f *ssa.Function) bool {
+	if f.Pkg == nil {
+		return false
+	}
+	switch f.Pkg.Pkg.Path() {
+	case "math/rand", "math/rand/v2", "crypto/rand", "sync", "sync/atomic", "os", "os/exec", "io/ioutil", "net", "net/http", "runtime", "unsafe", "reflect":
+		return true
+	case "time":
+		return f.Name() == "Now" || f.Name() == "Since" || f.Name() == "Until" || f.Name() == "Sleep" || f.Name() == "After" || f.Name() == "Tick"
+	}
+	return false
+}
+
 type frameResult struct {
+	unreviewed bool
 	name   string
 	ok     bool
 	reason string
@@ -336,7 +368,7 @@ func (fa *frameAnalysis) check(f *ssa.Function) []frameResult {
 					name = o.String()
 				}
 				switch {
-				case pureLib[name]:
+				case pureLib[name] || purePackageFunc(callee):
 				case receiverLocalLib[name]:
 					ok := len(cc.Args) > 0 && !nf[cc.Args[0]]
 					reason := ""
@@ -347,11 +379,19 @@ func (fa *frameAnalysis) check(f *ssa.Function) []frameResult {
 				case name == "regexp.MustCompile":
 					// compiling is pure; the result is stored in a global only by init (checked by frame.global)
 				case (name == "fmt.Fprintf" || name == "os.Exit") && inCmd:
+				case historyLib(callee):
+					if isInit {
+						continue
+					}
+					add("libcall", false, "call of "+name+" reads or writes state outside the call (clock, environment, random source, shared memory)", in)
 				default:
 					if isInit {
 						continue
 					}
-					add("libcall", false, "call of "+name+" is not on the reviewed list of pure library functions", in)
+					// not reviewed: the purity argument does not cover this call; reported as undecided, not as a violation
+					n["unreviewed"]++
+					out = append(out, frameResult{name: fmt.Sprintf("%s.frame.unreviewed#%d", key, n["unreviewed"]), ok: false, unreviewed: true,
+						reason: "call of " + name + " is not on the reviewed list of pure library functions", pos: w.pos(in.Pos()), fn: key})
 				}
 			}
 		}
@@ -367,10 +407,17 @@ func (w *World) frameVCs() []VC {
 	var vcs []VC
 	for _, r := range w.frameCheck() {
 		r := r
-		vcs = append(vcs, VC{Name: r.name, Prop: "C19", Kind: "frame", Fn: r.fn, Pos: r.pos, Clause: "writes only to activation-fresh memory; no global writes outside init; reviewed pure library callees",
+		kind := "frame"
+		if r.unreviewed {
+			kind = "frame.unreviewed"
+		}
+		vcs = append(vcs, VC{Name: r.name, Prop: "C19", Kind: kind, Fn: r.fn, Pos: r.pos, Clause: "writes only to activation-fresh memory; no global writes outside init; reviewed pure library callees",
 			Run: func() SolveResult {
 				if r.ok {
 					return SolveResult{Status: "unsat", Solver: "govc-dataflow"}
+				}
+				if r.unreviewed {
+					return SolveResult{Status: "unknown", Solver: "govc-dataflow", Output: r.reason + " at " + r.pos}
 				}
 				return SolveResult{Status: "sat", Solver: "govc-dataflow", Output: r.reason + " at " + r.pos}
 			}})
